@@ -108,8 +108,11 @@ def run(ctx):
         if nviol > 6:
             return
         d = json.loads(info[i])
+        cs = {"schema": d.get("schema"), "instances": d.get("instances")}
+        if "text" in d:
+            cs["text"] = d["text"]
         payload = {"kind": kind, "what": what, "schema": d.get("schema"), "instances": d.get("instances"),
-                   "impl": impl[i], "model": model[i], "case": json.dumps({"schema": d.get("schema"), "instances": d.get("instances")}),
+                   "impl": impl[i], "model": model[i], "case": json.dumps(cs),
                    "replay": "bin/check C13 --replay <this file>"}
         if "generated" in d:
             payload["generated"] = d["generated"]
@@ -182,6 +185,40 @@ def run(ctx):
                 st["schemas_outside_fragment"] += 1
             if len(samples) < 3 and st["forward_schemas"] % 211 == 1 and len(info[i]) < 600:
                 samples.append({"case": json.loads(info[i]), "impl": im, "model": mo})
+        elif tag == "O":
+            st["permuted_schemas"] += 1
+            if im.startswith("P"):
+                st["import_panics"] += 1
+                if im != "P known":
+                    violation("panic", "the importer or the evaluator panicked (permuted key order)", i)
+                continue
+            if im == "X" or mo == "U":
+                # Which of two outcomes an unsatisfiable schema gets - "constraints are not possible to
+                # satisfy" at import time, or an import that rejects everything - depends on the order in
+                # which allOf/anyOf/oneOf narrow allowedTypes; both are fine.  Anything else is not.
+                if im == "X" and mo == "U":
+                    st["permuted_extract_error_predicted"] += 1
+                elif mo == "U" and set(im.split(" ")[1]) <= set("0"):
+                    st["permuted_unsatisfiable_imported_rejects_all"] += 1
+                elif im == "X" and set(mo.split(" ")[1]) <= set("0"):
+                    st["permuted_unsatisfiable_rejected_at_import"] += 1
+                else:
+                    violation("import-outcome", "with the keys of the schema objects permuted, the import outcome (impl X = jsonschema.Extract error) and the model (U = unsupported) disagree on a schema that has valid instances / accepts instances", i)
+                continue
+            mk, v, e, dev = mo.split(" ")
+            ik, ib = im.split(" ")
+            if mk == "C" or dev != "-":
+                # outside the fragment the encoding depends on the key order; compared in canonical order only
+                st["permuted_outside_fragment"] += 1
+                continue
+            for k, (a, cc) in enumerate(zip(ib, v)):
+                if a in "PQ":
+                    continue
+                st["permuted_verdicts"] += 1
+                if a != cc:
+                    violation("key-order", "with the keys of the schema objects written in another order the imported CUE decides instance %d differently from JSON Schema validity (valid = %s, implementation says %s); the schema is inside the fragment of encode_correct in canonical order" % (k, cc, a), i,
+                              {"instance_index": k, "permuted_text": json.loads(info[i]).get("text")})
+                    break
         elif tag == "R":
             mk, v, e, dev = mo.split(" ")
             ib = im.split(" ")[1]
@@ -227,9 +264,9 @@ def run(ctx):
         "theorems": proof["theorems"],
         "axioms_reported": proof["axioms"],
         "audit_files": proof["audit_files"],
-        "evaluations": st["forward_verdicts"] + st["reverse_verdicts_in_domain"] + st["reverse_verdicts_outside_domain"] + st["suite_tests"],
+        "evaluations": st["forward_verdicts"] + st["permuted_verdicts"] + st["reverse_verdicts_in_domain"] + st["reverse_verdicts_outside_domain"] + st["suite_tests"],
         "distinct_nontrivial": nontrivial,
-        "rule": "forward: corpus/C13 + generated schemas (depth <= 3, keyword subset, 1 in 5 may use a known-deviation construct, 1 in 25 is an import-error schema) x 8 instances biased to the schema's constants; non-trivial = distinct schema on which the generated instances get both verdicts. reverse: Generate(Extract(s)) parsed back strictly, valid(generated) vs the CUE verdicts; strict only on the validated domain (assertion keywords + anyOf/oneOf/not/if/items/contains over flat members). suite: vendored draft2020-12 cases whose schema and data are inside the subset, run through `valid`",
+        "rule": "permuted: every generated schema object is also written with its keys in a random order; inside the fragment its verdicts must equal `valid`. forward: corpus/C13 + generated schemas (depth <= 3, keyword subset, 1 in 5 may use a known-deviation construct, 1 in 25 is an import-error schema) x 8 instances biased to the schema's constants; non-trivial = distinct schema on which the generated instances get both verdicts. reverse: Generate(Extract(s)) parsed back strictly, valid(generated) vs the CUE verdicts; strict only on the validated domain (assertion keywords + anyOf/oneOf/not/if/items/contains over flat members). suite: vendored draft2020-12 cases whose schema and data are inside the subset, run through `valid`",
         "samples": samples,
         "counts": dict(st),
         "harness_stats": stats,
